@@ -281,8 +281,8 @@ CHECKS = {
               "(thorough: -race core, race reports in AwaitAll/handleHooks/runTasksAsHooks are violations). Non-trivial: >=1 failing hook."),
         assumptions=["hooks of later weights in the same pass of an enter_/after_ moment after a critical failure are not claimed either way",
                      "all hooks are awaited at their trigger in this check (deferred awaits are C08's subject)"],
-        quick=[R("^(TestFixed|TestCanary.*)$", 1, 1, 900), R("^TestHookFailures$", 12, 10, 900, shrinktime="90s")],
-        thorough=[R("^(TestFixed|TestCanary.*)$", 1, 1, 900), R("^TestHookFailures$", 250, 14, 3400, shrinktime="180s"),
+        quick=[R("^(TestFixed|TestCanary.*)$", 1, 1, 900), R("^TestDeferredAwaitFailure$", 1, 1, 300), R("^TestHookFailures$", 12, 10, 900, shrinktime="90s")],
+        thorough=[R("^(TestFixed|TestCanary.*)$", 1, 1, 900), R("^TestDeferredAwaitFailure$", 1, 1, 300), R("^TestHookFailures$", 250, 14, 3400, shrinktime="180s"),
                   R("^TestHookFailures$", 60, 2, 3400, race=True, env={"VERIF_RACE": "1"}, shrinktime="60s")],
         floors={"critical-failure": ("TestHookFailures", 0.3), "simultaneous-failures": ("TestHookFailures", 0.05)},
     ),
